@@ -18,10 +18,11 @@ LEVEL = "proof"
 INCLUDE = ["w4s_c11"]     # w4-skel: generated control-flow skeleton of the MU loop (Props/W4SC11.v) + replay stream sk_mu
 GEN_UNITS = []
 SHARD = 8
-COQ_TARGETS = ["Props/C11.vo", "Props/C11w4.vo", "Model/C11Check.vo", "Model/C11Replay.vo", "Model/C11Lbfgs.vo", "Model/Harness.vo"]
-THEOREM_FILES = ["Props/C11.v", "Props/C11w4.v"]
+COQ_TARGETS = ["Props/C11.vo", "Props/C11w4.vo", "Props/C11w5.vo", "Model/C11Check.vo", "Model/C11GenCheck.vo", "Model/C11Replay.vo",
+               "Model/C11Lbfgs.vo", "Model/Harness.vo"]
+THEOREM_FILES = ["Props/C11.v", "Props/C11w4.v", "Props/C11w5.v"]
 COQ_IMPORTS = ("From Coq Require Import List ZArith Bool QArith Qcanon.\n"
-               "From PV Require Import Base.Index Np.Array Model.Sparse Model.Repr Model.Harness Model.C11Check Model.C11Replay Model.C11Lbfgs.\n")
+               "From PV Require Import Base.Index Np.Array Model.Sparse Model.Repr Model.Harness Model.C11Check Model.C11GenCheck Model.C11Replay Model.C11Lbfgs.\n")
 RULE = ("count tensors <= 4x3x2 (2- to 4-way; random fill, an emptied slice, emptied slices in several modes, all-zero fibres, all-zero data, "
         "singleton modes), dense and sparse, ranks 1-3, integer / fractional guesses optionally with an all-zero row, fractional weights, "
         "guess factors F-ordered, C-ordered or strided views, dense data from a C-ordered array; algorithms mu/pdnr/pqnr x option sets "
@@ -482,6 +483,8 @@ def _obs_result(np, a, M, out, guess=None):
             "nkkt": len(out["kktViolations"]), "ninner": len(out["nInnerIters"]), "ntimes": len(out["times"]),
             "kkt": [tgen.exact(x) for x in np.asarray(out["kktViolations"]).ravel()],
             "inner": [tgen.exact(x) for x in np.asarray(out["nInnerIters"]).ravel()],
+            "nviol": ([int(x) for x in np.asarray(out["nViolations"]).ravel()] if "nViolations" in out else None),
+            "ntotal": (int(out["nTotalIters"]) if "nTotalIters" in out else None),
             "pure": out["pure"]}
 
 
@@ -853,8 +856,17 @@ def coq_check(c, o):
         X = tgen.gqdense(a["shape"], a["data"])
         G = f"(mkK {gqlist(a['gw'])} [" + "; ".join(gqmat(f) for f in a["gf"]) + "])"
         kk = gqlist(o["kkts"][a["maxiters"] - 1])
-        return (f"mu_model_ok tol9 {gq(ex(1e-10))} {gq(ex(op['kappa']))} {gq(ex(op['kappatol']))} {gq(ex(1e-4))} "
-                f"{op['maxinneriters']} {X} {G} {a['maxiters']} {K} {kk} && {gbool(o['pure'])}")
+        sec = f"tol9 {gq(ex(1e-10))} {gq(ex(op['kappa']))} {gq(ex(op['kappatol']))} {gq(ex(1e-4))} {op['maxinneriters']} {X} {G} {a['maxiters']} {K} {kk}"
+        if o.get("nviol") is None or o.get("ntotal") is None or not all(_finite(x) for x in o["inner"]):
+            return "false"
+        if int(o["ntotal"]) != sum(int(x) for x in o["inner"]):
+            return "false"
+        # the GENERATED loop (Gen/GenCpAprMu.v with the C11 kernels, Model/C11GenCheck.v) side by side: final tensor, explicit sorted weights,
+        # KKT list, nInnerIters, nViolations, nTotalIters; and the hand model the older theorems (Props/C11.v, C18) are about
+        e = f"gmu_model_ok {sec} {gnlist([int(x) for x in o['inner']])} {gnlist(o['nviol'])} && {gbool(o['pure'])}"
+        if a.get("hand", True):
+            e += f" && mu_model_ok {sec}"
+        return e
     e = _e_model(a, o) + _e_objective(o)
     # bookkeeping
     k1, k2, k3 = (gqlist(k) for k in o["kkts"])
